@@ -11,7 +11,7 @@ from vf.props.c05_spaces import Dim, MB, Skip, Space, arr
 
 INT64_MAX = 9223372036854775807
 
-_CAST_T = ["f32", "f16", "f64", "i64", "i32", "u8", "bool", "bf16"]
+_CAST_T = ["f32", "f16", "f64", "i64", "i32", "u8", "bool", "bf16", "i8", "i16", "u32", "u64"]
 # values incl. fractional, negative, out-of-range for f16 / u8 / i32
 _CAST_X = {
     "f32": [0.5, -1.5, 2.5, 70000.0, -70000.0, 1e-8, 65504.0, 3.3, 0.0, 255.9, 1.0009765625, 2049.0],
@@ -22,6 +22,12 @@ _CAST_X = {
     "u8": [0, 1, 2, 255, 128, 127, 3, 4, 5, 6, 7, 8],
     "bool": [True, False, True, True, False, False, True, False, True, False, True, True],
     "bf16": None,
+    # narrow signed and wide unsigned integers (a signed -> unsigned cast of at least the same width is NOT lossless:
+    # negatives wrap; seeded C03h)
+    "i8": [0, 1, -1, 127, -128, 100, -100, 3, -3, 5, -2, 64],
+    "i16": [0, 1, -1, 32767, -32768, 300, -300, 255, 256, 3, -3, 2049],
+    "u32": [0, 1, 2, 2 ** 32 - 1, 2 ** 31, 70000, 255, 256, 3, 2 ** 24 + 1, 7, 8],
+    "u64": [0, 1, 2, 2 ** 64 - 1, 2 ** 63, 70000, 255, 256, 3, 2 ** 40, 7, 8],
 }
 
 
@@ -46,9 +52,9 @@ def _finish(mb, y, t):
 # -- Cast(Cast(x, t2), t3) -> Cast(x, t3) --------------------------------------------------------------
 def _cc_dims(rule):
     return [
-        Dim("t1", ["f32", "f64", "i64", "f16", "bool", "u8"], _CAST_T),
-        Dim("t2", ["f32", "f16", "f64", "i32", "bool"], _CAST_T),
-        Dim("t3", ["f16", "bf16", "f32", "i64", "bool"], _CAST_T),
+        Dim("t1", ["f32", "f64", "i64", "f16", "bool", "u8", "i8", "i32"], _CAST_T),
+        Dim("t2", ["f32", "f16", "f64", "i32", "bool", "u8", "u64", "i8"], _CAST_T),
+        Dim("t3", ["f16", "bf16", "f32", "i64", "bool", "i32"], _CAST_T),
         S.d_inter(1), S.D_VI, S.d_opset(18, 13, 21, 23),
         Dim("saturate", ["absent", 1, 0], cost=1),
     ]
